@@ -517,7 +517,7 @@ func c06r5(c *core.Ctx) {
 		}
 		n++
 		ret := pa.Returns()
-		if ret == nil || core.IsNilConst(ret.Results[0]) || !core.IsNilConst(ret.Results[1]) {
+		if ret == nil || core.IsNilConst(res(ret)[0]) || !core.IsNilConst(res(ret)[1]) {
 			if bad == 0 {
 				c.BadPath("eof-after-full-frame@"+fname(dec), dec.Pos(), pa.Describe(p),
 					"on this path the length read hits end of input but Decrypt does not return the decrypted message: a payload that is an exact multiple of the frame size is rejected")
